@@ -14,6 +14,12 @@ def setup():
     t0 = time.time()
     from . import regen
     regen.regenerate_all()
+    try:        # field-classification table of C17 (Gen/Fields.lean)
+        from . import fieldtable
+        common.use_repo_on_path()
+        fieldtable.regenerate(common.LEAN_DIR)
+    except Exception as ex:
+        print('setup: fieldtable regeneration failed: %s' % ex)
     rc, out = common.lake(['build'], timeout=7200)
     print(out[-3000:])
     print('setup: lake build rc=%d in %.0fs' % (rc, time.time() - t0))
